@@ -25,7 +25,7 @@ var cbKinds = []string{
 	"reenc-state-crlf", "reenc-state-tail", "reenc-cookie-tail",
 	"dup-state", "dup-cookie",
 	"replay-new-code", "replay-same-code",
-	"sessions-as-flow",
+	"sessions-as-flow", "session-and-flow-value", "session-and-garbage",
 }
 
 var redeemBad = []string{"empty-email", "no-email-field", "400", "401", "403", "429", "500", "503", "malformed-json", "empty-email", "no-email-field", "201", "dropped", "unscripted", "code-missing", "code-empty"}
@@ -301,7 +301,7 @@ func runCallback(rep *vh.Report, env vh.Env, worlds []*world, i int) {
 			cookies = []string{fa.State, fa.CSRF}
 			variant = "first=state-value"
 		}
-	case "sessions-as-flow":
+	case "sessions-as-flow", "session-and-flow-value", "session-and-garbage":
 		// two session cookies the proxy itself issued (to somebody logged in twice) presented as state and
 		// CSRF cookie: sealed by this proxy, different ciphertexts - but not flow records
 		var sv []string
@@ -323,17 +323,18 @@ func runCallback(rep *vh.Report, env vh.Env, worlds []*world, i int) {
 			sv = append(sv, v)
 		}
 		states, cookies = []string{sv[0]}, []string{sv[1]}
-		switch r.Intn(6) {
-		case 0:
+		pickv := r.Intn(2)
+		switch {
+		case kind == "session-and-flow-value" && pickv == 0:
 			variant = "state=flow-state cookie=session"
 			states = []string{fa.State}
-		case 1:
+		case kind == "session-and-flow-value":
 			variant = "state=session cookie=flow-cookie"
 			cookies = []string{fa.CSRF}
-		case 2:
+		case kind == "session-and-garbage" && pickv == 0:
 			variant = "state=session cookie=garbage"
 			cookies = []string{word(r, 40+r.Intn(40))}
-		case 3:
+		case kind == "session-and-garbage":
 			variant = "state=garbage cookie=session"
 			states = []string{word(r, 40+r.Intn(40))}
 		}
